@@ -8,7 +8,7 @@ from gen import members, sweep
 
 RULE = ("quick: every group for n<=3 x all 2^n sign vectors x all configurations; all 2295 four-qubit groups x 2 sign "
         "vectors x 1 drawn configuration; n=5: 93 classes x 6 configurations x 3 constructed members; n=6: 760 classes x "
-        "7 configurations x 2 members; plus Hypothesis cases over input formats, generator bases and Clifford-circuit "
+        "7 configurations x 2 members; the canonical generators of the graph stored in every table entry (all 5962); plus Hypothesis cases over input formats, generator bases and Clifford-circuit "
         "inputs. thorough: every group n<=4 x ALL sign vectors x all configurations, every five-qubit group x 1 sign "
         "vector x all 6 configurations, n=6: 760 x 7 x 6 members, 16 x 300 Hypothesis cases. A case is one call of "
         "get_preparation_circuit; the input format rotates through Pauli strings (with/without sign), X/Z matrices "
@@ -159,6 +159,18 @@ def shard(arg):
             gens = lc.graph_state_gens(n, gid)
             for name in sweep.configs(n):
                 run_subject(rep, n, name, gens, "graph", {"source": "graph"}, graph_gid=gid, sample=(gid % 500 == 3))
+    elif kind == "table-graphs":
+        # the canonical generators of the very graph each table entry stores (every configuration x class), as graph and as strings
+        _, n, name, ids, seed = arg
+        from gen import tableinfo
+        for k in ids:
+            ent = tableinfo.parsed(n, name)[k] if k < len(tableinfo.parsed(n, name)) else None
+            if ent is None:
+                continue
+            gid = ent[0]
+            gens = lc.graph_state_gens(n, gid)
+            fmt = ["graph", "strings-nosign", "matrices-nophase", "strings+sign"][k % 4]
+            run_subject(rep, n, name, gens, fmt, {"source": "table-graph", "class_id": k}, graph_gid=gid, sample=(k % 400 == 7))
     elif kind == "hyp":
         _, seed, n_examples, deadline = arg
         from hypothesis import strategies as st
@@ -173,7 +185,7 @@ def shard(arg):
             orbit = lc.orbit_of(gens, n)
             return nontrivial_key(case, gens, orbit, n), {"format": case["format"], "calls_per_config": f"{n}-{case['connectivity']}",
                                                           "orbits_hit_n%d" % n: orbit}
-        strat = st.one_of(hyp.stabilizer_case(), hyp.stabilizer_case(), hyp.circuit_case(max_len=40))
+        strat = st.one_of(hyp.stabilizer_case(), hyp.circuit_case(max_len=40), hyp.circuit_case(max_len=40))
         fw.hyp_search(strat, check_prep, rep, seed, n_examples, classify=classify, deadline_ts=deadline)
     return rep
 
@@ -206,9 +218,13 @@ def run(ctx):
         N = 1 << (n * (n - 1) // 2)
         rng = fw.rng_for("c01g", ctx.seed, n)
         args.append(("graphs", n, sorted(rng.sample(range(N), 40 if q else 300)), ctx.seed))
+    kc = {2: 2, 3: 5, 4: 18, 5: 93, 6: 760}
+    for (n, name) in coupling.CONFIGS:
+        for chunk in fw.split(list(range(kc[n])), 1 if n < 6 else 4):
+            args.append(("table-graphs", n, name, chunk, ctx.seed))
     for i in range(16):
-        args.append(("hyp", ctx.seed * 1000 + i, 25 if q else 300, dl))
-    order = {"enum": 0, "member": 1, "hyp": 2, "graphs": 3}
+        args.append(("hyp", ctx.seed * 1000 + i, 60 if q else 600, dl))
+    order = {"enum": 0, "member": 1, "hyp": 2, "graphs": 3, "table-graphs": 1}
     args.sort(key=lambda a: (order[a[0]], -a[1] if a[0] != "hyp" else 0))
     rep = fw.run_shards(ctx, "props.c01", "shard", args)
     rep.extra["exhaustive"] = False
